@@ -6,7 +6,8 @@
 //!   case sndbuf=<n> pre=<k> | <msg> | <msg> ...
 //!   <msg> := [api=wall (send_message_write_all with a draining thread; the script is ignored, log is M:ok)] bo=<l|B> hv=<0..5> plen=<n> flags=<n> preset=<n|-> nfds=<n> pay=<len> seed=<n> mode=<push|parts> off=<n> script=<op,op,...>
 //!   ops: w (write_once Nonblock)  d<n> (peer reads up to n bytes)  s (into_progress)  r (resume)
-//!        W (write(Nonblock))  T (write(Duration 1ms))  F (finish: write(Nonblock)/drain loop)
+//!        W (write(Nonblock))  T (write(Duration 1ms))  F (finish: write(Nonblock)/drain loop; logged as F:over and
+//!          given up when the peer has already read 1 MiB more than the message has and the send is not complete)
 //!        A (finish: write_all with a draining thread)
 //!        X (give up: drop the context; panics by design after a partial write)  Q (give up: force_finish)
 //!   fill=1: the harness fills the socket with bytes of its own first, so that the first sendmsg gets EAGAIN at zero bytes
@@ -70,6 +71,10 @@ struct Peer {
     ctrunc: bool,
     /// bytes the harness itself put into the socket to fill it (they precede the message, are discarded)
     junk: usize,
+    /// memory guard: once more than `cap` bytes are stored (a send that repeats bytes without end), further bytes
+    /// are counted in `dropped` but not kept; such a message has already failed the comparison (extra > 0)
+    cap: usize,
+    dropped: usize,
 }
 
 impl Peer {
@@ -105,7 +110,9 @@ impl Peer {
         }
         let j = self.junk.min(n);
         self.junk -= j;
-        self.bytes.extend_from_slice(&buf[j..n]);
+        let keep = (n - j).min(self.cap.saturating_sub(self.bytes.len()));
+        self.bytes.extend_from_slice(&buf[j..j + keep]);
+        self.dropped += n - j - keep;
         Some((n - j, nf))
     }
 
@@ -126,7 +133,12 @@ impl Peer {
 
     /// message bytes the kernel has accepted so far: read by the peer or still queued (without the filler)
     fn acc(&self) -> usize {
-        self.bytes.len() + self.inq() - self.junk
+        self.bytes.len() + self.dropped + self.inq() - self.junk
+    }
+
+    /// message bytes read so far
+    fn got(&self) -> usize {
+        self.bytes.len() + self.dropped
     }
 
     /// bytes queued at the peer and not yet read
@@ -278,7 +290,7 @@ fn run_case(line: &str) -> String {
         let b = unsafe { BorrowedFd::borrow_raw(sfd) };
         setsockopt(&b, sockopt::SndBuf, &sndbuf).unwrap();
     }
-    let mut peer = Peer { stream: peer_stream, bytes: Vec::new(), fds: Vec::new(), ctrunc: false, junk: 0 };
+    let mut peer = Peer { stream: peer_stream, bytes: Vec::new(), fds: Vec::new(), ctrunc: false, junk: 0, cap: usize::MAX, dropped: 0 };
     let mut out = Vec::new();
     let pre_serials: Vec<String> = (0..pre).map(|_| conn.send.alloc_serial().get().to_string()).collect();
     out.push(format!("pre={}", if pre_serials.is_empty() { "-".to_string() } else { pre_serials.join(",") }));
@@ -292,6 +304,8 @@ fn run_case(line: &str) -> String {
         let body = msg.get_buf().to_vec();
         peer.bytes.clear();
         peer.fds.clear();
+        peer.dropped = 0;
+        peer.cap = body.len() + (4 << 20); // header + body + 2 MiB at least; more is never kept in memory
 
         if kv.get("fill").map(|f| *f == "1").unwrap_or(false) {
             // fill the socket with bytes of our own so that the first sendmsg of the message is refused (EAGAIN at zero bytes)
@@ -494,6 +508,13 @@ fn run_case(line: &str) -> String {
                                             r = format!("F:X{:?}", e).replace([' ', ','], "_");
                                             break;
                                         }
+                                        if peer.got() > total + (1 << 20) {
+                                            // far more bytes than the message has went out and the send still is not
+                                            // complete: stop here (the comparison below reports the surplus)
+                                            c.force_finish();
+                                            r = "F:over".to_string();
+                                            break;
+                                        }
                                         ctx = c;
                                         peer.drain(usize::MAX);
                                         rounds += 1;
@@ -530,7 +551,7 @@ fn run_case(line: &str) -> String {
         if mismatch.is_none() && expected.len() != peer.bytes.len() && !(abandoned && peer.bytes.len() < expected.len()) {
             mismatch = Some(cmp_len);
         }
-        let extra = peer.bytes.len().saturating_sub(expected.len());
+        let extra = peer.got().saturating_sub(expected.len());
         let fds: Vec<String> = peer
             .fds
             .iter()
@@ -556,7 +577,7 @@ fn run_case(line: &str) -> String {
             body.len(),
             crc32(&body),
             if log.is_empty() { "-".to_string() } else { log.join(",") },
-            peer.bytes.len(),
+            peer.got(),
             crc32(&peer.bytes),
             hex(&peer.bytes[..hlen.min(peer.bytes.len())]),
             mismatch.map(|m| m.to_string()).unwrap_or("-".into()),
